@@ -264,7 +264,7 @@ def visit(visitor, obj, attr, cff):
     for fontname in cff.keys():
         font = cff[fontname]
         cs = font.CharStrings
-        for g in font.charset:
+        for g in cs.keys():
             c, _ = cs.getItemAndSelector(g)
             privates.add(c.private)
 
